@@ -137,8 +137,8 @@ def script_sets(pid, tier, rnd):
         return [("long", muxgen.long_rotations(rnd, 12 if q else 36, 120 if q else 800), ["-probe", "-noemit"]),
                 ("gen", muxgen.general(rnd, 24 if q else 200, (40, 120)), ["-probe"])]
     if pid == "C18":
-        return [("longd", muxgen.long_rotations(rnd, 9 if q else 36, 300 if q else 3000, disk=True), ["-probe", "-noemit"]),
-                ("longr", muxgen.long_rotations(rnd, 9 if q else 36, 200 if q else 2000, disk=False), ["-probe", "-noemit"]),
+        return [("longd", muxgen.long_rotations(rnd, 9 if q else 32, 300 if q else 1200, disk=True), ["-probe", "-noemit"]),
+                ("longr", muxgen.long_rotations(rnd, 9 if q else 32, 200 if q else 1000, disk=False), ["-probe", "-noemit"]),
                 ("size", muxgen.size_limit(rnd, 60 if q else 600), [])]
     if pid == "C16":
         return [("cfgs", muxgen.track_lists(rnd, 150 if q else 1500), ["-mv", "-noemit"]),
@@ -182,7 +182,7 @@ def run(pid, tier, replay):
             nscripts += len(scripts)
             samples.append(describe(scripts[0]))
             tr = replay_sharded(binary, scripts, work, tag, flags)
-            tc = vlib.validate_trace_parallel("MuxTrace", INV[pid], tr, pid, tag=tag)
+            tc = vlib.validate_trace_parallel("MuxTrace", INV[pid], tr, pid, tag=tag, timeout=900 if tier == "quick" else 3000)
             lines += tc.lines
             traces += tc.traces
             states += tc.states
